@@ -75,19 +75,22 @@ MacroBad(o) ==
   LET c == o["case"]
       own == SelectSeq(o.recs, LAMBDA r : r.name = o.want_name)
       inner == SelectSeq(o.recs, LAMBDA r : r.name = "inner")
-      other == SelectSeq(o.recs, LAMBDA r : r.name # o.want_name /\ r.name # "inner") IN
+      after == SelectSeq(o.recs, LAMBDA r : r.name = "after")
+      other == SelectSeq(o.recs, LAMBDA r : r.name # o.want_name /\ r.name # "inner" /\ r.name # "after") IN
   IF o.traced.log # o.plain.log THEN "side-effects-differ"
   ELSE IF o.traced.out # o.plain.out THEN "outcome-differs"
   ELSE IF o.noparent.log # o.plain.log \/ o.noparent.out # o.plain.out THEN "outcome-differs-without-local-parent"
   ELSE IF o.noparent.recs # 0 THEN "recorded-without-local-parent"
   ELSE IF Len(own) # c.spans.own
-       THEN IF c.kind = "atrait" /\ c.naming = "default" /\ Len(other) = c.spans.own THEN "span-name-async-trait" ELSE "span-count-or-name"
+       THEN IF c.kind = "atrait" /\ c.naming \in {"default", "default_f"} /\ Len(other) = c.spans.own THEN "span-name-async-trait" ELSE "span-count-or-name"
   ELSE IF \E k \in DOMAIN own : own[k].parent # "root" THEN "span-parent"
   ELSE IF \E k \in DOMAIN own : [j \in DOMAIN own[k].props |-> <<own[k].props[j][1], own[k].props[j][2]>>]
                                    # [j \in DOMAIN o.want_props |-> <<o.want_props[j][1], o.want_props[j][2]>>] THEN "span-properties"
   ELSE IF Len(inner) # c.spans.inner \/ \E k \in DOMAIN inner : inner[k].parent # o.want_name THEN "inner-span"
   ELSE IF other # <<>> THEN "extra-span"
   \* an async-trait method called under one local parent (rootA), its future polled under another
+  \* the caller's local context is what it was once the annotated call is over, however it ended
+  ELSE IF Len(after) # 1 \/ after[1].parent # "root" THEN "caller-context-not-restored"
   ELSE IF c.kind = "atrait" /\ \E k \in DOMAIN o.split : o.split[k].name \notin {"inner"} /\ o.split[k].parent # "rootA" THEN "span-parent-not-the-callers"
   ELSE IF c.kind = "atrait" /\ Len(SelectSeq(o.split, LAMBDA r : r.name # "inner")) # c.spans.own THEN "span-lost-when-polled-elsewhere"
   ELSE "ok"
